@@ -18,7 +18,9 @@
 -/
 import FFS.Model.Eip712
 import FFS.Lemmas.Eip712Closure
+import FFS.Lemmas.Eip712Fuel
 import FFS.Props.C05
+import FFS.Props.C14
 namespace FFS.Props.C04
 open FFS FFS.Model.Abi FFS.Model.Eip712
 
@@ -367,6 +369,60 @@ theorem unreferenced_irrelevant (fuel : Nat) (p : TypedData) (A : TypeSet) (u : 
   unfold encodeTypedDataV4
   simp only [Option.getD_some, hlk]
   rw [key EIP712Domain _ hD, key p.primaryType _ hP]
+
+/-! ### the digest does not depend on the fuel -/
+
+theorem digest_fuel_step (f : Nat) (p : TypedData) (h : encodeTypedDataV4 f p ≠ .panic) :
+    encodeTypedDataV4 (f + 1) p = encodeTypedDataV4 f p := by
+  unfold encodeTypedDataV4 at h ⊢
+  simp only [] at h ⊢
+  split
+  · rfl
+  · rename_i hpt
+    rw [if_neg hpt] at h
+    have hS := fun ts => (FFS.Lemmas.Eip712Fuel.encoders_mono ts f).2.1
+    have hd : hashStruct f EIP712Domain (p.domain.getD (.obj [] []))
+        (if (tsLookup (p.types.getD []) EIP712Domain).isSome then p.types.getD []
+          else tsInsert (p.types.getD []) EIP712Domain (some [])) ≠ .panic := by
+      intro e; rw [e] at h; exact h rfl
+    rw [hS _ _ _ hd]
+    cases hx : hashStruct f EIP712Domain (p.domain.getD (.obj [] []))
+        (if (tsLookup (p.types.getD []) EIP712Domain).isSome then p.types.getD []
+          else tsInsert (p.types.getD []) EIP712Domain (some [])) with
+    | err => rfl
+    | panic => exact absurd hx hd
+    | ok dh =>
+      rw [hx] at h
+      simp only [] at h ⊢
+      split
+      · rename_i hne
+        rw [if_pos hne] at h
+        have hm : hashStruct f p.primaryType (p.message.getD .null)
+            (if (tsLookup (p.types.getD []) EIP712Domain).isSome then p.types.getD []
+              else tsInsert (p.types.getD []) EIP712Domain (some [])) ≠ .panic := by
+          intro e; rw [e] at h; exact h rfl
+        rw [hS _ _ _ hm]
+      · rfl
+
+/-- **The digest does not depend on the fuel**: the fuel of the model is a proof device, the Go recursion has none. Once
+    an amount of fuel gives a result (a digest or an error, anything but out-of-fuel), every larger amount gives the same
+    result — all six encoders are monotone in the fuel (`Lemmas/Eip712Fuel.encoders_mono`); and `docNeed p` always
+    gives one (C14 `encodeTypedDataV4_total`). -/
+theorem digest_fuel_independent (f : Nat) (p : TypedData) (h : encodeTypedDataV4 f p ≠ .panic) :
+    ∀ j, encodeTypedDataV4 (f + j) p = encodeTypedDataV4 f p
+  | 0 => rfl
+  | j + 1 => by
+    have ih := digest_fuel_independent f p h j
+    rw [← Nat.add_assoc, digest_fuel_step (f + j) p (by rw [ih]; exact h), ih]
+
+/-- **The digest of a document is well defined**: every amount of fuel from `docNeed p` upwards gives the same
+    non-panic result (C14 `encodeTypedDataV4_total` ∘ `digest_fuel_independent`). -/
+theorem digest_well_defined (p : TypedData) (fuel : Nat) (hf : docNeed p ≤ fuel) :
+    encodeTypedDataV4 fuel p = encodeTypedDataV4 (docNeed p) p ∧ encodeTypedDataV4 fuel p ≠ .panic := by
+  have h0 := FFS.Props.C14.encodeTypedDataV4_total p (docNeed p) (Nat.le_refl _)
+  have := digest_fuel_independent (docNeed p) p h0 (fuel - docNeed p)
+  rw [Nat.add_sub_cancel' hf] at this
+  exact ⟨this, FFS.Props.C14.encodeTypedDataV4_total p fuel hf⟩
 
 /-! ### non-vacuity: a concrete document on which the theorems' hypotheses hold (evaluated by the kernel) -/
 
